@@ -198,6 +198,7 @@ impl Property for C06 {
                                 let leak = if gi % 2 == 1 && seen_with.contains(&(gi - 1)) { "hypothesis-leak" } else { "history-differs" };
                                 // all-coinductive hierarchies with cyclic impls: the recorded SLG reuse defect (C05/C10) shows here too
                                 let co = if program_has_co_cycle(&case.pg.program) { ":coinductive-cycle" } else { "" };
+                                let co = if co.is_empty() && sv != Sv::Slg { env_qual(&case.pg.goals[*gi], &case.pg.program) } else { co };
                                 out.fail(
                                     format!("{}:{}:{}{}", sv.name(), leak, super::c10::diff_class(exp, &got), co),
                                     format!("[{}] goal `{}` at position {}: fresh solver says `{}`, shared solver says `{}`\n{}history (goal texts): {:?}", sv.name(), lg.text, pos, exp, got, low.text, case.history[..=pos].iter().map(|i| low.goals[*i].as_ref().map(|g| g.text.clone()).unwrap_or_default()).collect::<Vec<_>>()),
